@@ -172,47 +172,33 @@ impl ConstantFolding {
         // truthy             && call() --> call()
         // non-null/undefined ?? call() --> non-null/undefined
         if let BinaryOp::Logical(op) = binary.op() {
-            let expr = match op {
-                LogicalOp::And => {
-                    if lhs.to_boolean() {
-                        std::mem::replace(
-                            binary.rhs_mut(),
-                            Literal::new(LiteralKind::Undefined, span).into(),
-                        )
-                    } else {
-                        std::mem::replace(
-                            binary.lhs_mut(),
-                            Literal::new(LiteralKind::Undefined, span).into(),
-                        )
-                    }
-                }
-                LogicalOp::Or => {
-                    if lhs.to_boolean() {
-                        std::mem::replace(
-                            binary.lhs_mut(),
-                            Literal::new(LiteralKind::Undefined, span).into(),
-                        )
-                    } else {
-                        std::mem::replace(
-                            binary.rhs_mut(),
-                            Literal::new(LiteralKind::Undefined, span).into(),
-                        )
-                    }
-                }
-                LogicalOp::Coalesce => {
-                    if lhs.is_null_or_undefined() {
-                        std::mem::replace(
-                            binary.rhs_mut(),
-                            Literal::new(LiteralKind::Undefined, span).into(),
-                        )
-                    } else {
-                        std::mem::replace(
-                            binary.lhs_mut(),
-                            Literal::new(LiteralKind::Undefined, span).into(),
-                        )
-                    }
-                }
+            let takes_rhs = match op {
+                LogicalOp::And => lhs.to_boolean(),
+                LogicalOp::Or => !lhs.to_boolean(),
+                LogicalOp::Coalesce => lhs.is_null_or_undefined(),
             };
+            let expr = std::mem::replace(
+                if takes_rhs {
+                    binary.rhs_mut()
+                } else {
+                    binary.lhs_mut()
+                },
+                Literal::new(LiteralKind::Undefined, span).into(),
+            );
+
+            // The result of a logical expression is a value, never a reference: the rhs on its own
+            // could be one (`typeof (1 && x)`, `(1 && o.m)()`, `delete (1 && o.p)`, direct `eval`),
+            // so it stays behind a comma like in the comma case above.
+            if takes_rhs && !matches!(expr, Expression::Literal(_)) {
+                return PassAction::Replace(
+                    Binary::new(
+                        BinaryOp::Comma,
+                        Literal::new(LiteralKind::Undefined, span).into(),
+                        expr,
+                    )
+                    .into(),
+                );
+            }
             return PassAction::Replace(expr);
         }
 
